@@ -12,8 +12,11 @@ def record_session(vh, job):
             raise Broken("vh schema failed: " + e[-2000:])
         cmd = [vh, "record-session", "-schema", job["schema"], "-schema-seed", str(job["schema_seed"]), "-seed", str(job["seed"]),
                "-n", str(job["n"]), "-clients", str(job.get("clients", 2)), "-profile", job.get("profile", "C01"),
-               "-o", sc.path("trace.ndjson")]
-        rc, o, e = run(cmd, timeout=1800)
+               "-handlers", str(job.get("handlers", 0)), "-o", sc.path("trace.ndjson")]
+        env = dict(os.environ)
+        if job.get("gomaxprocs"):
+            env["GOMAXPROCS"] = str(job["gomaxprocs"])
+        rc, o, e = run(cmd, timeout=1800, env=env)
         if rc != 0:
             raise Broken("vh record-session failed (%s): %s" % (job, e[-3000:]))
         res = txnfam.validate_trace(sc.dir)
@@ -22,6 +25,9 @@ def record_session(vh, job):
         res["txns"] = sum(1 for x in trace if x["ev"] == "txn")
         res["cache_snapshots"] = sum(1 for x in trace if x["ev"] == "cache")
         res["monitors"] = sum(1 for x in trace if x["ev"] == "cmonitor")
+        res["event_checks"] = sum(1 for x in trace if x["ev"] == "events")
+        res["callbacks"] = sum(len(h) for x in trace if x["ev"] == "events" for h in x["handlers"])
+        res["sample_events"] = next((x["handlers"][0][:3] for x in trace if x["ev"] == "events" and x["handlers"] and len(x["handlers"][0]) >= 3), None)
         res["methods"] = sorted({x["method"] for x in trace if x["ev"] == "cmonitor"})
         res["sample"] = next((x for x in trace if x["ev"] == "cmonitor"), None)
         res["cases"] = []
@@ -92,4 +98,45 @@ def run_c01(prop, tier):
     write_evidence(prop, tier, "model_checking", cov, time.time() - t0, violations=len(verdict["violations"]),
                    assumptions=["the monitors of one client cover disjoint table sets",
                                 "only monitored columns are compared (the statement does not constrain the others)"])
+    return verdict
+
+
+EV_CFG = 'SPECIFICATION Spec\nCONSTANTS Rows = {"r1","r2"}\n Handlers = {"h1","h2"}\n Capacity = 2\n MaxChanges = %d\n Variant = "%s"\nINVARIANTS SeenIsPrefix SameSequence FoldReproducesCache LegalAlternation\nCHECK_DEADLOCK FALSE\n'
+
+
+def run_c14(prop, tier):
+    t0 = time.time()
+    vh = build_vh()
+    sd = seed()
+    with Scratch("mcev") as sc:
+        copy_spec(sc.dir, ["Events.tla"])
+        open(sc.path("MC.cfg"), "w").write(EV_CFG % (5 if tier == "quick" else 6, "intended"))
+        rc, out, wall = run_tlc(sc.dir, "Events.tla", cfg="MC.cfg", workers=NCPU, timeout=3000)
+        if "Model checking completed. No error has been found." not in out:
+            raise Broken("Events.tla: the intended design violates C14 or TLC failed:\n" + out[-3000:])
+        gen, dist = tlc_stats(out)
+        open(sc.path("MCv.cfg"), "w").write(EV_CFG % (4, "perHandler"))
+        rc, o2, w2 = run_tlc(sc.dir, "Events.tla", cfg="MCv.cfg", workers=4, timeout=900)
+        if "is violated" not in o2:
+            raise Broken("Events.tla: the perHandler variant is not refuted")
+    jobs = []
+    n = 150 if tier == "quick" else 700
+    for i in range(8 if tier == "quick" else 24):
+        schema = ["small", "kitchen", "random", "random"][i % 4]
+        jobs.append(dict(schema=schema, schema_seed=sd * 7 + i, seed=sd * 1000 + i, n=n if schema != "random" else n // 2, profile="C01",
+                         handlers=1 + i % 3, clients=1 + i % 2, gomaxprocs=[1, 2, 4, 16][i % 4]))
+    results = pmap(lambda j: record_session(vh, j), jobs)
+    cases = [c for r in results for c in r["cases"] if c["mismatch"].get("prop") == "C14"]
+    verdict = findings.adjudicate(prop, cases, confirm_session(vh))
+    cov = {"states": dist + sum(r["states"] for r in results), "transitions": gen + sum(r["transitions"] for r in results),
+           "mc_states": dist, "variant_refuted": "perHandler",
+           "traces_validated_against_impl": len(results), "event_sequences_validated": sum(r["event_checks"] for r in results),
+           "callbacks_validated": sum(r["callbacks"] for r in results), "transactions": sum(r["txns"] for r in results),
+           "samples": [r["sample_events"] for r in results if r.get("sample_events")][:2] or [{"note": "no handler saw three events"}],
+           "known_findings_seen": verdict["known"],
+           "rule": "1-3 recording handlers are registered on each real client's cache before any monitor; random histories (several rows per "
+                   "notification, every monitor method) run under GOMAXPROCS 1/2/4/16; after a marker row has reached every handler (FIFO "
+                   "barrier) TLC folds each handler's callbacks: every event legal where it stands, result = cache contents, all handlers equal"}
+    write_evidence(prop, tier, "model_checking", cov, time.time() - t0, violations=len(verdict["violations"]),
+                   assumptions=["fewer events outstanding than the buffer holds (65536)", "no reconnect during the history"])
     return verdict
